@@ -1,7 +1,7 @@
 // C15 — tree/DAG queries follow graph-theoretic definitions; re-rooting keeps topology
 // VF-VARIANT: san
-// VF-RULE: E2: (a) every recursive tree (parent[i]<i) with 1..7 nodes and every labelled tree (Pruefer code) with 1..6 nodes (thorough: also every labelled 7-node tree, not re-rooted), built through createNode/addSon, x every new root (and "not re-rooted") x every node, ordered node pair and node subset of size <=3: rootAt clauses (same edge ids and end points, edge table agreeing with the links, new root the unique father-less node, still valid) and father/sons/branches/leaves-under/subtree/node-path/edge-path/MRCA against a parent-array reference; six structured families (path, star, caterpillar, balanced binary, comb, broom) with 8..12 nodes x 2 labellings x every root; (b) every labelled tree with 1..6|7 nodes x unRoot(false) x every new root; (c) every directed graph on <=4|5 labelled nodes (tree container with root 0; DAG container, arcs added through addSon/addFather) and every undirected graph on <=5|6 nodes for the validity predicates, fresh and cached, and DAG rootedness; every digraph on <=4 nodes x every new root x (validity and rootedness asked before or not) through DAG rootAt, validity and rootedness judged afterwards; (d) observer variant with node/edge objects: re-rooting keeps every edge object on its edge (recursive trees <=6|7 nodes x root), object-level wrappers agree with the id-level queries, setFather/addSon with an edge object (recursive trees <=5|6 nodes x node x father x 3 kinds of edge object), validity for every digraph on <=3|4 nodes x every root, DAG observer addSon/addFather with edge objects. E1: breadth-first histories of createNode/createNodeFromNode/setFather/addSon/removeSon/deleteNode/rootAt/unRoot(false|true)/setOutGroup/isValid/isRooted over <=5 node ids from the empty graph (depth 6|7) and from every recursive 4-node tree (depth 3..4|4), both 3-node trees (4|5) and three 5-node trees (3|3) on the tree container; of createNode/addSon/addFather/removeSon/removeFather/deleteNode/rootAt/isValid/isRooted over <=4 node ids from the empty graph and from 3 and 4 isolated nodes (depth 4|5) on the DAG container; in every reached state (every cache status) the answer isValid() would give now and a fresh evaluation are compared with the definition evaluated on the graph read through the public getters, and every rootAt on a valid (rooted or un-rooted) tree is judged. A case is non-trivial when the tree has >=2 nodes (E2 trees), the graph has >=1 arc (E2 graphs) or the transition changed the canonical state (E1).
-// VF-BOUND: all tree shapes and labellings up to 6 nodes and all recursive trees with 7 nodes instead of 12 nodes, six enumerated families (not random trees) for 8..12; node subsets of size <=3; all digraphs up to 4 (quick) / 5 (thorough) nodes instead of DAGs on 6; histories of depth <=2..6 from seed trees over <=5 node ids (tree) and <=4 node ids (DAG) instead of unbounded histories; no self-loops, no parallel links
+// VF-RULE: E2: (a) every recursive tree (parent[i]<i) with 1..7 nodes and every labelled tree (Pruefer code) with 1..6 nodes (thorough: also every labelled 7-node tree, not re-rooted), built through createNode/addSon, x every new root (and "not re-rooted") x every node, ordered node pair and node subset of size <=3: rootAt clauses (same edge ids and end points, edge table agreeing with the links, new root the unique father-less node, still valid) and father/sons/branches/leaves-under/subtree/node-path/edge-path/MRCA against a parent-array reference; six structured families (path, star, caterpillar, balanced binary, comb, broom) with 8..12 nodes x 2 labellings x every root; (b) every labelled tree with 1..6|7 nodes x unRoot(false) x every new root; (c) every directed graph on <=4|5 labelled nodes (tree container with root 0; DAG container, arcs added through addSon/addFather) and every undirected graph on <=5|6 nodes for the validity predicates, fresh and cached, and DAG rootedness; every digraph on <=4 nodes x every new root x (validity and rootedness asked before or not) through DAG rootAt, validity and rootedness judged afterwards; every digraph on <=3|4 nodes with at least one self arc on the DAG container (self arcs added before or after a validity query); (d) observer variant with node/edge objects: re-rooting keeps every edge object on its edge (recursive trees <=6|7 nodes x root), object-level wrappers agree with the id-level queries, setFather/addSon with an edge object (recursive trees <=5|6 nodes x node x father x 3 kinds of edge object), validity for every digraph on <=3|4 nodes x every root, DAG observer addSon/addFather with edge objects. E1: breadth-first histories of createNode/createNodeFromNode/setFather/addSon/removeSon/deleteNode/rootAt/unRoot(false|true)/setOutGroup/isValid/isRooted over <=5 node ids from the empty graph (depth 6|7) and from every recursive 4-node tree (depth 3..4|4), both 3-node trees (4|5) and three 5-node trees (3|3) on the tree container; of createNode/addSon/addFather/removeSon/removeFather/deleteNode/rootAt/isValid/isRooted over <=4 node ids from the empty graph and from 3 and 4 isolated nodes (depth 4|5) on the DAG container; in every reached state (every cache status) the answer isValid() would give now and a fresh evaluation are compared with the definition evaluated on the graph read through the public getters, and every rootAt on a valid (rooted or un-rooted) tree is judged. A case is non-trivial when the tree has >=2 nodes (E2 trees), the graph has >=1 arc (E2 graphs) or the transition changed the canonical state (E1).
+// VF-BOUND: all tree shapes and labellings up to 6 nodes and all recursive trees with 7 nodes instead of 12 nodes, six enumerated families (not random trees) for 8..12; node subsets of size <=3; all digraphs up to 4 (quick) / 5 (thorough) nodes instead of DAGs on 6; histories of depth <=2..6 from seed trees over <=5 node ids (tree) and <=4 node ids (DAG) instead of unbounded histories; no self-loops except in the DAG validity space (every digraph on <=3|4 nodes with at least one self arc), no parallel links
 // VF-LEVEL: bounded-exhaustive differential check of the real containers against independent reference algorithms; every case of the stated finite spaces and every history up to the stated depth is executed under ASan/UBSan
 // VF-ASSUME: the reference algorithms in harness/C15_ref.hpp (BFS parent arrays, Kahn) are right;; the public getters getAllNodes/getOutgoingNeighbors/getIncomingNeighbors/getAllEdges/getTop/getBottom/getRoot/isDirected report the stored graph (GlobalGraph structure integrity is property C14);; E1 canonical states relabel edge ids by rank: the library uses edge ids only as ordered map keys and generates fresh ids above all existing ones, so behaviour is invariant under order-preserving relabelling;; histories never create self-loops or parallel links and, while the graph is undirected, never unlink (those reach the structure-integrity defects of C14, not the predicates of C15)
 // VF-TECHNIQUE: exhaustive enumeration of tree shapes / digraphs / edit histories on the real code against a reference model
@@ -334,6 +334,34 @@ static void spaceDigraphsRootAt(vf::Runner& R, int nmax) {
     c.tag(ref ? "dag-rootAt:acyclic-afterwards" : "dag-rootAt:cyclic-afterwards");
     if (raised) c.tag("dag-rootAt:raised");
     if (idx % 50021 == 19) c.sample(ctx());
+  }, 10.0);
+}
+
+// DAG container only: every digraph on <=n nodes that carries at least one self arc (x>x). A self arc is a cycle, so the predicate must be
+// false whatever else the graph holds. (The tree container and the re-rooting clauses stay without self arcs: see VF-BOUND.)
+static void spaceDagSelfArcs(vf::Runner& R, int nmax) {
+  std::vector<Block> bl; uint64_t total = 0;
+  for (int n = 1; n <= nmax; ++n) { uint64_t cnt = (1ull << (n * n)) * 2; bl.push_back(Block{n, total, cnt, 1}); total += cnt; }
+  R.space("validity:dag-digraphs-with-self-arcs:n<=" + str(nmax) + ":asked-between2", total, [=](uint64_t idx, vf::Case& c) {
+    const Block& k = findBlock(bl, idx); int n = k.n; uint64_t r0 = idx - k.start; bool askBetween = r0 % 2; uint64_t mask = r0 / 2;
+    std::vector<std::pair<int, int>> arcs, selfs; int bit = 0;
+    for (int x = 0; x < n; ++x) for (int y = 0; y < n; ++y) { if ((mask >> bit) & 1) (x == y ? selfs : arcs).push_back({x, y}); ++bit; }
+    if (selfs.empty()) { c.tag("no-self-arc(covered by the plain digraph space, skipped)"); return; }
+    c.nontrivial();
+    c.site("DAGraphImpl::isValid (self arcs)");
+    DAGlobalGraph D(true);
+    for (int i = 0; i < n; ++i) D.createNode();
+    bool raised = false;
+    try {
+      for (auto& a : arcs) D.addSon((unsigned)a.first, (unsigned)a.second);
+      if (askBetween) D.isValid();                        // the self arcs arrive after the predicate has been cached
+      for (auto& a : selfs) D.addSon((unsigned)a.first, (unsigned)a.second);
+    } catch (bpp::Exception&) { raised = true; }
+    GView g = viewOf(D); bool ref = refIsDag(g);
+    auto all = arcs; all.insert(all.end(), selfs.begin(), selfs.end());
+    auto ctx = [&] { return "DAG container " + arcsStr(n, all, true) + (askBetween ? " (isValid() asked before the self arcs were added)" : "") + (raised ? " (an addSon raised)" : "") + " giving [" + g.str() + "]"; };
+    judgeValidity(c, "dag", dagValidity(D), ref, ctx);
+    c.tag(raised ? "dag-self-arc:refused" : ref ? "dag-self-arc:graph-acyclic-afterwards" : "dag-self-arc:cyclic");
   }, 10.0);
 }
 
@@ -799,6 +827,7 @@ int main(int argc, char** argv) {
   spaceUnrootReroot(R, th ? 7 : 6);
   spaceDigraphs(R, th ? 5 : 4);
   spaceDigraphsRootAt(R, 4);
+  spaceDagSelfArcs(R, th ? 4 : 3);
   R.expectSeen("dag-rootAt:cyclic-afterwards"); R.expectSeen("dag-rootAt:acyclic-afterwards");
   spaceUndirected(R, th ? 6 : 5);
   spaceObserverReroot(R, th ? 7 : 6);
